@@ -146,7 +146,9 @@ func (d *Decoder) decodeBytesOrStringIndefinite(bs []byte, majorWanted byte) (bs
 			bs = bs[:newLen]
 		}
 		// Read that hunk.
-		d.r.Readb(bs[oldLen:newLen])
+		if err := d.r.Readb(bs[oldLen:newLen]); err != nil {
+			return bs[:oldLen], err
+		}
 	}
 }
 
